@@ -13,6 +13,9 @@ CHECKS = {
  "C03": ("Runtime post-condition on design_matrices for driver-made designs on replicated complete-factorial frames: all 5910 ordered families of up to three terms over {f,g,h,x} with and without intercept (quick), plus all 2^15 families over four two-level factors and sampled atom variants (C/T/S/bs/poly/scale) with shuffled factor order (thorough); full column rank and equality of spans are decided by SVD / projection residuals against an all-indicator reference coding.",
          "Numerical decision: column-normalised matrices, smallest/largest singular value >= 1e-9 and projection residual <= 1e-6; frames are built by the driver so that the premise (all level combinations occur, numerics in general position) holds.",
          "runtime post-condition monitor with linear-algebra oracle (reference model space) over exhaustively enumerated term families"),
+ "C04": ("Intrinsic runtime post-condition on every DesignMatrices built and every evaluate_new_data result: for each term the label -> expected column dictionary is rebuilt from the data frame alone (level indicators, products, group cell x effect) and every actual label/column pair, the label count and the product order are checked; driven by seeded random designs over all categorical dtype kinds, arities 1..4, group-specific terms and hostile level names, and by the repository's own tests (W0).",
+         "Judged domain is the statement's (numeric variables / pointwise calls, treatment-coded factors); terms with Sum codings or multi-column transforms are counted as not judged; ambiguous candidate labels are skipped and counted.",
+         "intrinsic runtime post-condition (label->column dictionary oracle built from the frame) on hooked design_matrices / evaluate_new_data"),
 }
 NOT_APPLICABLE = {}
 PENDING = [f"C{i:02d}" for i in range(1, 18) if f"C{i:02d}" not in CHECKS]
